@@ -81,9 +81,6 @@ func summaryString(ds []rDay) string {
 func checkC02(w *Worker) {
 	w.appInit()
 	maxFirst, maxSecond := 3, 1
-	if w.Tier == "thorough" {
-		maxFirst, maxSecond = 3, 2
-	}
 	dates := []string{"2021/01/25", "2021/01/24", "2021/01/25"} // file order is not chronological; a date may repeat
 	genDay := func(x *Exec, date string, max int) absDay {
 		d := absDay{Date: date}
